@@ -29,6 +29,10 @@ fn main() {
             checks::c01::dump(args[2].parse().unwrap_or(10), args.get(3).and_then(|s| s.parse().ok()).unwrap_or(1));
             return;
         }
+        "dump-ctl" => {
+            checks::c02::dump(&args[2], args[3].parse().unwrap_or(10), args.get(4).and_then(|s| s.parse().ok()).unwrap_or(1));
+            return;
+        }
         "real-shell" => {
             checks::real::real_shell_main(args[2..].to_vec());
         }
